@@ -135,7 +135,10 @@ func writeBag(s *slip.Scope, obj *flavors.Instance, args slip.List, depth int) (
 			pos++
 		}
 		for ; pos < len(args)-1; pos += 2 {
-			sym := args[pos].(slip.Symbol)
+			sym, ok := args[pos].(slip.Symbol)
+			if !ok {
+				slip.TypePanic(s, depth, "keyword", args[pos], "keyword")
+			}
 			switch string(sym) {
 			case ":pretty":
 				prty = args[pos+1] != nil
